@@ -456,6 +456,52 @@ fn positional_case(cx: &mut CaseCtx, input: Input) -> CaseResult {
     binding(cx, &p, &texts, &rendered)
 }
 
+// ---- primitives reached by name (escaped keyword identifiers) -----------------------------------
+
+const PRIMS16: [&str; 16] = [
+    "bool", "int8", "uint8", "int16", "uint16", "int32", "uint32", "varint32", "varuint32", "int64", "uint64", "varint62", "varuint62", "float32", "float64",
+    "string",
+];
+pub const ESCAPED_PRIMITIVES_TOTAL: u64 = 16 * 3;
+
+/// `a: \int64` is a name, not a keyword: the outward search ends in the global scope, where the
+/// primitives live - unless a definition of that name is met on the way.
+fn escaped_primitive_case(cx: &mut CaseCtx, input: Input) -> CaseResult {
+    let idx = input.index() as usize;
+    let (p, variant) = (PRIMS16[idx % 16], idx / 16);
+    let text = match variant {
+        0 => format!("module M\nstruct S {{ a: \\{p}, b: Sequence<\\{p}?> }}\n"),
+        1 => format!("module M\ncustom \\{p}\nstruct S {{ a: \\{p}, b: Sequence<\\{p}?> }}\n"),
+        _ => format!("module M::Inner\nstruct S {{ a: \\{p}, b: Sequence<::\\{p}?> }}\n"),
+    };
+    cx.nontrivial = true;
+    cx.label("escaped-primitive-name");
+    cx.label_if(variant == 1, "escaped-primitive-name-shadowed");
+    cx.sample_with(|| json!({"files": [text]}));
+    let state = compile_strings(&[text.clone()], None);
+    if state.diagnostics.has_errors() {
+        let d = diagnostics_of(state, &Default::default());
+        fail!(format!("escaped-primitive/rejected/{}", error_codes(&d).first().cloned().unwrap_or_default()), "{}\n{text}", summarize(&d));
+    }
+    let observed = crate::observe::observe_program(&state);
+    let Some(DefM::Struct(s)) = observed.files[0].defs.iter().find(|d| d.name() == "S") else {
+        fail!("escaped-primitive/struct-lost", "{text}");
+    };
+    let want = if variant == 1 { TypeK::Named(format!("@custom M::{p}")) } else { TypeK::Prim(p.to_owned()) };
+    let elem = match &s.fields[1].ty.kind {
+        TypeK::Seq(e) => e.kind.clone(),
+        other => other.clone(),
+    };
+    for (what, got) in [("field type", &s.fields[0].ty.kind), ("sequence element", &elem)] {
+        check!(
+            *got == want,
+            format!("escaped-primitive/binding-mismatch/{}", if variant == 1 { "shadowed" } else { "global" }),
+            "{what}: expected {want:?}, bound to {got:?}\n{text}"
+        );
+    }
+    Ok(())
+}
+
 // ---- alias chains ---------------------------------------------------------------------------
 
 const CHAIN_MODULES: [&[&str]; 4] = [&["A"], &["A", "B"], &["D"], &["A", "B", "C"]];
@@ -619,7 +665,7 @@ impl Check for C03 {
         "C03"
     }
     fn rule(&self) -> String {
-        format!("families: scopes = all {SCOPES_TOTAL} arrangements of module levels A, A::B, A::B::C (also renamed to A, A::A, A::A::A and A, A::B, A::B::A, so that inner modules repeat an outer name) x definition `X` of kind none/struct/interface/alias/custom/enum at each level x referencing level x 12 spellings x 8 positions (field, parameter, return, sequence element, dictionary value, alias target, interface base, enum underlying) x 6 file orders x member-named-like-the-type (strided in the quick tier); positional = every (only base, second base, enum underlying type) x (primitive, optional primitive, sequence, dictionary, result, struct, interface, custom type): bound or reported, never dropped; alias-chains = proptest choice sequences -> chains of 1..4 aliases over 4 modules with an attribute per link, shared short names and every spelling; programs = random larger programs. Oracle: the reference resolver (outward scope search, '::' global, alias flattening with attribute accumulation): resolves <=> accepted, observed bindings == expected, a miss / wrong kind / loop is reported with an admissible code inside the offending reference's text, never silently bound elsewhere; every definition, field, enumerator and operation is retrievable through Ast::find_element. Non-trivial = shadowed at >= 2 levels, crosses files, or goes through an alias")
+        format!("families: scopes = all {SCOPES_TOTAL} arrangements of module levels A, A::B, A::B::C (also renamed to A, A::A, A::A::A and A, A::B, A::B::A, so that inner modules repeat an outer name) x definition `X` of kind none/struct/interface/alias/custom/enum at each level x referencing level x 12 spellings x 8 positions (field, parameter, return, sequence element, dictionary value, alias target, interface base, enum underlying) x 6 file orders x member-named-like-the-type (strided in the quick tier); positional = every (only base, second base, enum underlying type) x (primitive, optional primitive, sequence, dictionary, result, struct, interface, custom type): bound or reported, never dropped; escaped-primitives = every primitive reached by name (`\\int64`, `::int64`), bare and shadowed by a definition of that name; alias-chains = proptest choice sequences -> chains of 1..4 aliases over 4 modules with an attribute per link, shared short names and every spelling; programs = random larger programs. Oracle: the reference resolver (outward scope search, '::' global, alias flattening with attribute accumulation): resolves <=> accepted, observed bindings == expected, a miss / wrong kind / loop is reported with an admissible code inside the offending reference's text, never silently bound elsewhere; every definition, field, enumerator and operation is retrievable through Ast::find_element. Non-trivial = shadowed at >= 2 levels, crosses files, or goes through an alias")
     }
     fn assumptions(&self) -> Vec<String> {
         vec![
@@ -656,6 +702,7 @@ impl Check for C03 {
         vec![
             Family::enumerate("scopes", SCOPES_TOTAL, tier.pick(7, 1), scopes_case),
             Family::enumerate("positional", POSITIONAL_TOTAL, 1, positional_case),
+            Family::enumerate("escaped-primitives", ESCAPED_PRIMITIVES_TOTAL, 1, escaped_primitive_case),
             Family::bytes("alias-chains", 64, tier.pick(6_000, 150_000), chains_case),
             Family::bytes("programs", 600, tier.pick(1_500, 30_000), move |cx, i| programs_case(cx, i, &cfg)),
             Family::replay_only("direct", |cx, i| {
